@@ -372,6 +372,37 @@ where
     }
 }
 
+#[cfg(feature = "verif_hooks")]
+#[allow(missing_docs)]
+impl<Model, const MRHS: bool, const PAR: bool> LevMarProblem<Model, MRHS, PAR>
+where
+    Model: SeparableNonlinearModel,
+    Model::ScalarType: Scalar + ComplexField + Copy,
+{
+    /// verification hook: the singular value threshold in effect
+    pub fn verif_svd_epsilon(&self) -> <Model::ScalarType as ComplexField>::RealField {
+        self.svd_epsilon.clone()
+    }
+
+    /// verification hook: clones of the cached factors (U, sigma, V^T) of the weighted basis matrix
+    #[allow(clippy::type_complexity)]
+    pub fn verif_svd(
+        &self,
+    ) -> Option<(
+        Option<DMatrix<Model::ScalarType>>,
+        nalgebra::DVector<<Model::ScalarType as ComplexField>::RealField>,
+        Option<DMatrix<Model::ScalarType>>,
+    )> {
+        self.cached.as_ref().map(|c| {
+            (
+                c.current_svd.u.clone(),
+                c.current_svd.singular_values.clone(),
+                c.current_svd.v_t.clone(),
+            )
+        })
+    }
+}
+
 #[allow(unused)]
 pub(crate) const PARALLEL_YES: bool = true;
 pub(crate) const PARALLEL_NO: bool = false;
